@@ -25,7 +25,13 @@ Inductive op : Type :=
 | ForeachRemove (i k : Z)            (* Foreach whose i-th callback (from 0) calls Remove k *)
 | IterNew (kind slot : Z)            (* 0 entry asc, 1 entry desc, 2 key asc, 3 key desc, 4 value asc *)
 | IterHasNext (slot : Z) | IterNext (slot : Z) | IterRemove (slot : Z)
-| Probe.
+| Probe
+(* entries handed out by the accessors are live nodes: acc = 0 FirstEntry, 1 LastEntry,
+   2 FloorEntry k, 3 CeilingEntry k, 4 HigherEntry k, 5 getLowerEntry k *)
+| SetValueAt (acc k v : Z)           (* e := accessor; if e != nil: e.SetValue(v) *)
+| EntryEquals (acc1 k1 acc2 k2 : Z)  (* e1.Equals(e2) when both accessors return an entry *)
+| IterSetValue (slot v : Z).         (* SetValue on the entry the last Next of an entry iterator
+                                        returned, provided the map was not modified since *)
 
 (* panic kinds of the iterators *)
 Definition P_NoSuchElement : Z := 1.
@@ -81,6 +87,12 @@ Definition sl_floor (k : Z) (l : list kv) : option kv := find (fun e => fst e <=
 Definition sl_lower (k : Z) (l : list kv) : option kv := find (fun e => fst e <? k) (rev l).
 
 Definition okey (o : option kv) : option Z := option_map fst o.
+
+Definition sl_access (acc k : Z) (l : list kv) : option kv :=
+  if acc =? 0 then sl_first l else if acc =? 1 then sl_last l
+  else if acc =? 2 then sl_floor k l else if acc =? 3 then sl_ceiling k l
+  else if acc =? 4 then sl_higher k l else if acc =? 5 then sl_lower k l else None.
+Definition kv_same (a b : kv) : bool := (fst a =? fst b) && (snd a =? snd b).
 
 (* ---- iterators ---- *)
 Definition kind_ok (kind : Z) : bool := (0 <=? kind) && (kind <=? 4).
@@ -193,6 +205,29 @@ Definition sstep (s : sstate) (o : op) : sstate * out :=
       | None => (s, OUnit)
       end
   | Probe => (s, OUnit)
+  | SetValueAt acc k v =>
+      match sl_access acc k l with
+      | Some (k', old) => (s_with_list s (sl_insert k' v l) false, OVal (Some old))
+      | None => (s, OVal None)
+      end
+  | EntryEquals acc1 k1 acc2 k2 =>
+      match sl_access acc1 k1 l, sl_access acc2 k2 l with
+      | Some a, Some b => (s, OBool (kv_same a b))
+      | _, _ => (s, OUnit)
+      end
+  | IterSetValue slot v =>
+      match s_its s slot with
+      | Some it =>
+          match si_last it with
+          | Some k =>
+              if (si_kind it <=? 1) && (si_exp it =? s_ver s) then
+                (s_with_list s (sl_insert k v l) false,
+                 OVal (Some (match sl_lookup k l with Some old => old | None => 0 end)))
+              else (s, OUnit)
+          | None => (s, OUnit)
+          end
+      | None => (s, OUnit)
+      end
   end.
 
 Fixpoint srun (s : sstate) (ops : list op) : sstate * list out :=
